@@ -216,6 +216,9 @@ func genInjectSuite(r *hx.R, tier, scratch, prop string) (*hx.Suite, error) {
 		case "C04":
 			var names []string
 			k := 1 + r.Intn(6)
+			if r.Chance(0.04) {
+				k = 0 // the empty request: nothing to resolve, nothing to apply
+			}
 			if r.Chance(0.15) {
 				k = 9 + r.Intn(32) // long requests: many misses in one call
 			}
